@@ -356,7 +356,7 @@ def poll_final_pending(R, poll):
     return pend, final, ntp
 
 
-@rule("C02.6", ["C02", "C07", "C03"], ["E2"], "the dispatcher never sleeps without having run every stage, in order",
+@rule("C02.6", ["C02", "C07", "C03", "C10", "C17", "C08"], ["E2"], "the dispatcher never sleeps without having run every stage, in order",
       "The final Poll::Pending of VirtualSocket::poll is dominated by calls to maybe_send_syn_ack, process_all_incoming_messages, user_rx.flush, the remote-inactivity check, "
       "split_tx_queue_into_segments, send_tx_queue, maybe_send_fin and maybe_send_ack, each dominating the next; every other Pending exit is control-dependent on this_poll.transport_pending = true; "
       "after next_timer_to_poll() = Some the sleep is armed (Timers::arm_in) or the task self-wakes.")
@@ -387,6 +387,21 @@ def c02_6(R):
         else:
             R.fail([poll.name, "stage-order", prev[0] + "<" + name], "stage %s is no longer dominated by stage %s (stages reordered)" % (name, prev[0]), where=poll.where(), instance="stage:" + name)
         prev = (name, bbs)
+    # register-then-check: the application-side flags that decide the local close (reader / writer dropped, writer shut down) are read AFTER the
+    # stages in which the task registers its wakers with the two halves (user_rx.flush, split_tx_queue_into_segments) and after send_tx_queue.
+    # A value sampled earlier in the iteration is stale by then: a drop that happens in between finds no waker yet and is not seen either.
+    stq_bbs = dict(stage_bbs).get("send_tx_queue") or []
+    flag_reads = [t for t in poll.calls() if call_matches(t, ("UserRx::is_reader_dropped", "UserTx::is_writer_dropped", "UserTx::is_writer_shutdown"))]
+    if flag_reads and stq_bbs:
+        early = [t for t in flag_reads if not any(b in dom.get(t.bb, ()) for b in stq_bbs)]
+        if early:
+            R.fail([poll.name, "app-flags-read-before(send_tx_queue)", short_callee(early[0].resolved)],
+                   "poll samples %s before the stages that register its wakers and send: the decision to close is taken on a value from the start of the iteration - a stream dropped in between is "
+                   "neither seen nor able to wake the task (no waker was registered yet), so the FIN waits for an unrelated event" % short_callee(early[0].resolved), where=early[0].where(), instance="register-then-check")
+        else:
+            R.ok("register-then-check", poll.name, "%d reads of the reader/writer done-flags, all after send_tx_queue" % len(flag_reads))
+    else:
+        R.fail([poll.name, "app-flags-not-read"], "poll no longer reads the reader/writer done-flags (or the send stage is gone)", where=poll.where(), instance="register-then-check")
     # every iteration starts from a clean slate: transport_pending := false (otherwise one would-block send silences the
     # connection for good) and now := env.now() (timers are compared against this value)
     first = stage_bbs[0][1] if stage_bbs and stage_bbs[0][1] else []
@@ -692,3 +707,34 @@ def c02_11(R):
                 R.ok("Ok(true)=>Pending", fn, "only in the Poll::Pending arm of %s" % pollfn)
             else:
                 R.fail([fn, "Ok(true)-not-under(Poll::Pending)"] + sorted(ds)[:3], "%s reports 'pending' for an outcome that is not the transport's Poll::Pending: the waker was not registered" % fn, where=d.where(), instance="Ok(true)=>Pending")
+
+
+@rule("C02.12", ["C02", "C07", "C06", "C03"], ["E1", "E4"], "protocol timers are consulted in place; only the re-poll-only timer is consumed",
+      "Timer::take empties the slot it reads. The only audited use is next_timer_to_poll on timers.recovery_pipe_expiry (a timer whose expiry merely has to cause one more poll). Every "
+      "Timer::expired / Timer::poll_at on the other timers reads the Timers field itself: an `ack_delay_timer.take().expired(now)` disarms an armed, unexpired timer on every poll, so "
+      "the deadline slides with each arriving packet (the 40 ms / RTO / inactivity bounds stop being bounds).")
+def c02_12(R):
+    F = R.facts
+    tf = timer_fields(F)
+    R.require(tf is not None and len(tf) >= 5, "struct Timers with >= 5 Timer<_> fields")
+    n = 0
+    for b in F.bodies(lambda nm: nm.startswith("stream_dispatch::")):
+        for t in b.calls():
+            if not t.args:
+                continue
+            if call_matches(t, ("stream_dispatch::Timer::take",)):
+                n += 1
+                f = trace(b, t.args[0]).last_field
+                if owner_fn(b).endswith("::next_timer_to_poll") and f == "Timers.recovery_pipe_expiry":
+                    R.ok("timer-consumed-only-as-audited", owner_fn(b), "take() on the re-poll-only timer")
+                else:
+                    R.fail([owner_fn(b), "Timer::take", str(f)], "%s consumes timer %s with take(): an armed timer that has not expired is disarmed by merely looking at it" % (owner_fn(b).split("::")[-1], f),
+                           where=t.where(), instance="timer-consumed-only-as-audited")
+            elif call_matches(t, ("stream_dispatch::Timer::expired",)):
+                src = trace(b, t.args[0])
+                if src.last_field in tf and src.kind != "call":
+                    R.ok("timer-read-in-place", owner_fn(b), "%s.expired()" % src.last_field)
+                else:
+                    R.fail([owner_fn(b), "Timer::expired-on-a-copy", src.describe()], "%s asks a detached copy of a timer whether it expired (%s): the stored timer is not the one being tested"
+                           % (owner_fn(b).split("::")[-1], src.describe()), where=t.where(), instance="timer-read-in-place")
+    R.floor("Timer::take sites", n, 1)
